@@ -26,10 +26,12 @@ Init == /\ InSpace(scn, Eps)
         /\ pc = "start" /\ fs = FS0 /\ base = Out /\ todo = <<>> /\ plan = NoPlan /\ touched = {}
 
 \* ---- regctl artifact get
+\* (a benign second layer, pos # "only", is written to Out/ok; the model does not order the two layers)
 ArtStart == /\ pc = "start" /\ scn.ep = "art"
             /\ plan' = ArtPlan([segs |-> scn.segs, lead |-> scn.lead, trail |-> scn.trail], scn.unpack, scn.strip)
-            /\ pc' = "art_mkdir"
-            /\ UNCHANGED <<scn, fs, base, todo, touched>>
+            /\ touched' = IF scn.pos = "only" THEN {} ELSE {Out \o <<"ok">>}
+            /\ pc' = IF scn.place = "layerdigest" /\ ~Validate(Dig(scn.h)) THEN "done" ELSE "art_mkdir"   \* l.Digest.Validate()
+            /\ UNCHANGED <<scn, fs, base, todo>>
 ArtMkdir == /\ pc = "art_mkdir"
             /\ IF DirsOk(fs, plan.mkdir)
                THEN LET new == {q \in Prefixes(plan.mkdir) : ~Has(fs, q)} IN
@@ -62,6 +64,7 @@ ExtractDir == ExtractKind("dir")
 ExtractReg == ExtractKind("reg")
 ExtractSym == ExtractKind("sym")
 ExtractHard == ExtractKind("hard")
+ExtractIgnored == ExtractKind("fifo")                       \* header types without a case in the switch
 ExtractEnd == /\ pc = "extract" /\ todo = <<>> /\ pc' = "done"
               /\ UNCHANGED <<scn, fs, base, todo, plan, touched>>
 
@@ -81,7 +84,7 @@ Import == /\ pc = "start" /\ scn.ep = "imp" /\ pc' = "done"
           /\ UNCHANGED <<scn, fs, base, todo, plan, touched>>
 
 Next == \/ ArtStart \/ ArtMkdir \/ ArtCreate \/ ArtExtract
-        \/ TarStart \/ ExtractDir \/ ExtractReg \/ ExtractSym \/ ExtractHard \/ ExtractEnd
+        \/ TarStart \/ ExtractDir \/ ExtractReg \/ ExtractSym \/ ExtractHard \/ ExtractIgnored \/ ExtractEnd
         \/ LayBlobAccess \/ LayBlobPut \/ LayManifestRead \/ LayManifestPut \/ LayManifestDelete
         \/ LayIndexOnly \/ LayClose \/ LayCopy \/ Import
 Spec == Init /\ [][Next]_vars
